@@ -63,10 +63,14 @@ def beam_model(row, pruning_size, use_beta, beta, rel_eps=1e-5):
     n = len(row)
     best = row.max()
     surely, maybe = set(), set()
-    for t in range(n):
+    srt = numpy.sort(row)
+    greater_all = n - numpy.searchsorted(srt, row, side='right')
+    geq_all = n - numpy.searchsorted(srt, row, side='left')
+    # a tag with pruning_size or more strictly better tags is outside the beam whatever else holds
+    for t in numpy.nonzero(greater_all < pruning_size)[0].tolist():
         s = row[t]
-        greater = int((row > s).sum())
-        geq = int((row >= s).sum())
+        greater = int(greater_all[t])
+        geq = int(geq_all[t])
         sure_prune = geq <= pruning_size          # inside the k best whatever the tie order
         may_prune = greater < pruning_size        # inside the k best for some tie order
         if use_beta:
@@ -286,16 +290,22 @@ def count_derivations(n, categories, admitted, memo, roots, max_chain=12):
 # ------------------------------------------------------------------ per-tree oracles
 
 def _canon_tree(tree):
-    """id()-free canonical form of a Tree (used for equality of responses)"""
-    if tree.is_leaf:
-        tok = tree.children[0]
-        return ('L', str(tree.cat), tree.op_string, tree.op_symbol, bool(tree.head_is_left),
-                tuple((k, tok[k]) for k in tok.keys()))
-    return ('T', str(tree.cat), tree.op_string, tree.op_symbol, bool(tree.head_is_left),
-            tuple([_canon_tree(c) for c in tree.children]))
+    """id()-free canonical form of a Tree (used for equality of responses): the flat pre-order list of its
+    nodes with their arity -- flat, so that comparing, hashing and serialising it never recurses"""
+    out, stack = [], [tree]
+    while stack:
+        node = stack.pop()
+        if node.is_leaf:
+            tok = node.children[0]
+            out.append(('L', str(node.cat), node.op_string, node.op_symbol, bool(node.head_is_left),
+                        tuple((k, tok[k]) for k in tok.keys())))
+        else:
+            out.append(('T', str(node.cat), node.op_string, node.op_symbol, bool(node.head_is_left),
+                        len(node.children)))
+            stack.extend(reversed(node.children))
+    return tuple(out)
 
 
-@deep
 def canon_tree(tree):
     return _canon_tree(tree)
 
